@@ -29,32 +29,48 @@ COMMON = dict(stubs=FS, models=MODEL, unwind=26, cap=600, mem=12)
 # the last view ends at map.len()
 TILE3 = [(('v3', 'b9', 'r0'), 'quick'), (('r65', 'i3', 'v0'), 'quick'), (('p2', 's9', 'on'), 'quick'), (('o2', 'i64', 'b0'), 'quick'),
          (('i0', 'on', 'i0'), 'quick'), (('s3', 'ri128', 's0'), 'quick'), (('b8', 'o0', 'p0'), 'quick'),
-         (('v1', 'p3', 'o0'), 'thorough'), (('i1', 'r3', 'i0'), 'thorough'), (('b3', 'v3', 'b0'), 'thorough'), (('on', 'on', 'v0'), 'thorough'),
-         (('r0', 'r0', 'r0'), 'thorough'), (('i64', 'i64', 'i0'), 'thorough'), (('p3', 'p3', 'p0'), 'thorough'), (('s9', 'b9', 's0'), 'thorough'),
-         (('ri65', 'v0', 'b0'), 'thorough'), (('s3', 'r128', 's0'), 'thorough')]
+         (('v1', 'p3', 'o0'), 'quick'), (('i1', 'r3', 'i0'), 'quick'), (('b3', 'v3', 'b0'), 'quick'), (('on', 'on', 'v0'), 'quick'),
+         (('r0', 'r0', 'r0'), 'quick'), (('i64', 'i64', 'i0'), 'quick'), (('p3', 'p3', 'p0'), 'quick'), (('s9', 'b9', 's0'), 'quick'),
+         (('ri65', 'v0', 'b0'), 'quick'), (('s3', 'r128', 's0'), 'quick')]
 for ks, tier in TILE3:
     inst(P, 'c13_tile_%s' % '_'.join(ks), 'c13::tile3::<%s>(true)' % ty(*ks), tier=tier, desc='file = %s: views == load() of the same bytes, views tile the file' % ds(*ks),
          shape={'file': [T[k][1] for k in ks]}, **COMMON)
-TILE2 = [(('i3', 'r0'), 'quick'), (('o2', 'on'), 'quick'), (('r65', 'o2'), 'thorough'), (('r65', 'v0'), 'thorough'), (('b9', 's0'), 'thorough'), (('p2', 'i0'), 'thorough'), (('i64', 'on'), 'thorough')]
+TILE2 = [(('i3', 'r0'), 'quick'), (('o2', 'on'), 'quick'), (('r65', 'o2'), 'quick'), (('r65', 'v0'), 'quick'), (('b9', 's0'), 'quick'), (('p2', 'i0'), 'quick'), (('i64', 'on'), 'quick')]
 for ks, tier in TILE2:
     inst(P, 'c13_tile_%s' % '_'.join(ks), 'c13::tile2::<%s>(true)' % ty(*ks), tier=tier, desc='file = %s: views == load() of the same bytes, views tile the file' % ds(*ks),
          shape={'file': [T[k][1] for k in ks]}, **COMMON)
 # the same against the values that were serialized (no load)
-inst(P, 'c13_tile_nl_r65_i3_v0', 'c13::tile3::<%s>(false)' % ty('r65', 'i3', 'v0'), tier='thorough', desc='file = %s: views == serialized values' % ds('r65', 'i3', 'v0'),
+inst(P, 'c13_tile_nl_r65_i3_v0', 'c13::tile3::<%s>(false)' % ty('r65', 'i3', 'v0'), tier='quick', desc='file = %s: views == serialized values' % ds('r65', 'i3', 'v0'),
      shape={'file': [T[k][1] for k in ('r65', 'i3', 'v0')], 'load': False}, **COMMON)
 
 # every offset >= file length (all usize) is refused, for each view type
-for k, tier in (('v3', 'quick'), ('p2', 'quick'), ('b9', 'quick'), ('s3', 'quick'), ('o2', 'quick'), ('on', 'thorough'), ('r65', 'quick'), ('i3', 'quick'), ('i0', 'thorough')):
+for k, tier in (('v3', 'quick'), ('p2', 'quick'), ('b9', 'quick'), ('s3', 'quick'), ('o2', 'quick'), ('on', 'quick'), ('r65', 'quick'), ('i3', 'quick'), ('i0', 'quick')):
     inst(P, 'c13_badoff_%s' % k, 'c13::bad_offset::<%s>()' % ty(k, 'v0'), tier=tier, role='c13_badoff_' + ('int' if k[0] == 'i' else k[0]),
          desc='file = %s: view of the first type at any offset >= map.len() (all usize) is Err, no panic' % ds(k, 'v0'), shape={'file': [T[k][1], T['v0'][1]]}, **COMMON)
 
 # file cut at every 8-byte boundary
-TRUNC = [(('v3', 'p2'), 'quick'), (('b9', 's9'), 'quick'), (('o2', 'r65'), 'quick'), (('i3', 'o2'), 'quick'), (('r128', 'i64'), 'quick'), (('s9', 'b9'), 'thorough'), (('p3', 'v3'), 'thorough'),
-         (('i64', 'r128'), 'thorough'), (('o2', 'o2'), 'thorough'), (('r65', 'on'), 'thorough'), (('i1', 'b3'), 'thorough')]
+TRUNC = [(('v3', 'p2'), 'quick'), (('b9', 's9'), 'quick'), (('o2', 'r65'), 'quick'), (('i3', 'o2'), 'quick'), (('r128', 'i64'), 'quick'), (('s9', 'b9'), 'quick'), (('p3', 'v3'), 'quick'),
+         (('i64', 'r128'), 'quick'), (('o2', 'o2'), 'quick'), (('r65', 'on'), 'quick'), (('i1', 'b3'), 'quick')]
 for ks, tier in TRUNC:
     inst(P, 'c13_trunc_%s' % '_'.join(ks), 'c13::truncated::<%s>()' % ty(*ks), tier=tier,
          desc='file = %s cut at every 8-byte boundary t in 1..total (symbolic): incomplete structure => Err, complete one unchanged' % ds(*ks),
          shape={'file': [T[k][1] for k in ks]}, **COMMON)
+
+# thorough: every ordered pair of the eight representative shapes, tiled and truncated
+REPS = ['v3', 'p2', 'b9', 's3', 'o2', 'on', 'r65', 'i3']
+from kvlib import registry as _r
+_have = set(i.name for i in _r._INSTANCES)
+for a in REPS:
+    for b in REPS:
+        n = 'c13_tile_%s_%s' % (a, b)
+        if n not in _have:
+            inst(P, n, 'c13::tile2::<%s>(true)' % ty(a, b), tier='thorough', desc='file = %s: views == load() of the same bytes, views tile the file' % ds(a, b),
+                 shape={'file': [T[a][1], T[b][1]]}, **COMMON)
+        n = 'c13_trunc_%s_%s' % (a, b)
+        if n not in _have:
+            inst(P, n, 'c13::truncated::<%s>()' % ty(a, b), tier='thorough',
+                 desc='file = %s cut at every 8-byte boundary t in 1..total (symbolic): incomplete structure => Err, complete one unchanged' % ds(a, b),
+                 shape={'file': [T[a][1], T[b][1]]}, **COMMON)
 
 extra(P, assumptions=[
     'reference for a view = what Serialize::load returns from the bytes at the same offset of the same file image',
